@@ -211,7 +211,7 @@ def enumerate_histories(real, seed_lines, pool, opsfn, depth, audit=("obs",)):
     yield from rec(base, pool, depth)
 
 
-def random_history(rng, real, opsfn, length, audit=("obs",), nverts=(2, 5), extra=None, attr_values=None):
+def random_history(rng, real, opsfn, length, audit=("obs",), nverts=(2, 5), extra=None, attr_values=None, reset_line="reset"):
     """one random history, generated while running the real code (for exact pools).
     Returns (lines, real_answers)."""
     lines, outs = [], []
@@ -223,7 +223,7 @@ def random_history(rng, real, opsfn, length, audit=("obs",), nverts=(2, 5), extr
         outs.append(real.step(op))
         p = p.after(op, outs[-1])
 
-    do("reset")
+    do(reset_line)
     for _ in range(rng.randint(*nverts)):
         r = rng.random()
         a = ""
